@@ -141,9 +141,25 @@ def _cli_case(case, clidrv, pelgen):
         if case['mode'] == 'f':
             r = clidrv.run_main(['-f', names[0], '-x', '-E'])
             want = [pels[0]]
-        else:
+        elif case['mode'] == 'a':
             r = clidrv.run_main(['-p', d, '-a', '-x', '-E'])
             want = pels
+        elif case['mode'] == 'l':
+            r = clidrv.run_main(['-p', d, '-l', '-x', '-E'])
+            want = pels
+        elif case['mode'] == 'plid':
+            r = clidrv.run_main(['-p', d, '--plid', '%08X' % pelgen.pel_from_spec(case['pels'][0])['plid'], '-x'])
+            want = [b for b, sp in zip(pels, case['pels']) if pelgen.pel_from_spec(sp)['plid'] == pelgen.pel_from_spec(case['pels'][0])['plid']]
+        elif case['mode'] == 'src':
+            r = clidrv.run_main(['-p', d, '--src', 'BD8D', '-x'])
+            want = [b for b, sp in zip(pels, case['pels']) if any(x.get('t') == 'PS' and 'BD8D' in x.get('ascii', 'BD8D1234') for x in sp['sections'][:1])]
+        elif case['mode'] == 'bmc':
+            r = clidrv.run_main(['-p', d, '--bmc-id', str(pelgen.pel_from_spec(case['pels'][0])['obmc']), '-x'])
+            want = [pels[0]]
+        else:
+            os.rename(names[0], os.path.join(d, 'x_%08X' % pelgen.pel_from_spec(case['pels'][0])['eid']))
+            r = clidrv.run_main(['-p', d, '-i', '%08X' % pelgen.pel_from_spec(case['pels'][0])['eid'], '-x'])
+            want = [pels[0]]
         blocks = clidrv.split_hex_blocks(r.stdout)
         if blocks is None:
             out.append({'key': 'cli:markers', 'what': 'stdout is not a sequence of Begin/End blocks: %r' % r.stdout[:200],
@@ -217,6 +233,14 @@ def run_chunk(chunk):
         specs = pelgen.base_pel_specs()
         for s in specs:
             do({'k': 'cli', 'mode': 'f', 'pels': [s]}, True)
+        # PELs larger than any plausible read buffer (4 KiB, 8 KiB, 64 KiB - 9), through every mode that can print --hex
+        for size in (4000, 4097, 8200, 20000, 65000):
+            big = {'eid': 0x50000900 + size % 251, 'plid': 0x50000900 + size % 251, 'obmc': 900 + size % 7, 'sections': [
+                {'t': 'PS', 'ascii': 'BD8D9000'.ljust(32)},
+                {'t': 'UD', 'comp': 0xABCD, 'payload': bytes((i * 7 + size) & 0xff for i in range(size)).hex()}]}
+            small = {'eid': 0x50000800, 'plid': 0x50000800, 'obmc': 800, 'sections': [{'t': 'PS', 'ascii': '11009000'.ljust(32)}]}
+            for mode in ('f', 'a', 'l', 'plid', 'src', 'bmc', 'id'):
+                do({'k': 'cli', 'mode': mode, 'pels': [big, small]}, True)
         for i in range(len(specs)):
             group = [specs[i], specs[(i + 1) % len(specs)], specs[(i + 5) % len(specs)]]
             for j, g in enumerate(group):
